@@ -167,6 +167,9 @@ def _worker(args):
     prop_name, spec, seed, tier = args
     setup_environment()
     t0 = time.time()
+    if os.environ.get("VERIF_DEBUG_SHARDS"):
+        sys.stderr.write("[shard start] %s %r\n" % (prop_name, spec.get("_label", spec) if isinstance(spec, dict) else spec))
+        sys.stderr.flush()
     try:
         import importlib
         if isinstance(spec, dict) and spec.get("_py_optimize") and not sys.flags.optimize:
@@ -192,6 +195,9 @@ def _worker(args):
                                                                             traceback.format_exc()))
     d["spec"] = spec
     d["wall_s"] = time.time() - t0
+    if os.environ.get("VERIF_DEBUG_SHARDS"):
+        sys.stderr.write("[shard end %.1fs] %s %r\n" % (d["wall_s"], prop_name, spec.get("_label", spec) if isinstance(spec, dict) else spec))
+        sys.stderr.flush()
     return d
 
 
